@@ -101,6 +101,9 @@ func (tm *TopicMetadata) decode(pd packetDecoder, version int16) (err error) {
 	if err != nil {
 		return err
 	}
+	if n < 0 {
+		return errInvalidArrayLength
+	}
 	tm.Partitions = make([]*PartitionMetadata, n)
 	for i := 0; i < n; i++ {
 		tm.Partitions[i] = new(PartitionMetadata)
@@ -163,6 +166,9 @@ func (r *MetadataResponse) decode(pd packetDecoder, version int16) (err error) {
 	if err != nil {
 		return err
 	}
+	if n < 0 {
+		return errInvalidArrayLength
+	}
 
 	r.Brokers = make([]*Broker, n)
 	for i := 0; i < n; i++ {
@@ -192,6 +198,9 @@ func (r *MetadataResponse) decode(pd packetDecoder, version int16) (err error) {
 	n, err = pd.getArrayLength()
 	if err != nil {
 		return err
+	}
+	if n < 0 {
+		return errInvalidArrayLength
 	}
 
 	r.Topics = make([]*TopicMetadata, n)
